@@ -12,6 +12,7 @@ import (
 	"errors"
 	"fmt"
 	"git.arvados.org/arvados.git/sdk/go/blockdigest"
+	"math"
 	"path"
 	"regexp"
 	"sort"
@@ -268,6 +269,10 @@ func parseManifestStream(s string) (m ManifestStream) {
 			return
 		}
 		m.blockOffsets[i] = streamoffset
+		if uint64(bl.Size) > math.MaxUint64-streamoffset {
+			m.Err = fmt.Errorf("Stream size exceeds 64 bits at block %s", b)
+			return
+		}
 		streamoffset += uint64(bl.Size)
 	}
 	m.blockOffsets[len(m.Blocks)] = streamoffset
@@ -283,7 +288,7 @@ func parseManifestStream(s string) (m ManifestStream) {
 			m.Err = fmt.Errorf("Invalid file token: %s", ft)
 			break
 		}
-		if pft.SegPos+pft.SegLen > streamoffset {
+		if pft.SegPos > streamoffset || pft.SegLen > streamoffset-pft.SegPos {
 			m.Err = fmt.Errorf("File segment %s extends past end of stream %d", ft, streamoffset)
 			break
 		}
